@@ -12,7 +12,7 @@ Definition SigFields (p : pkt_sig) (ver olen ttl : Z) (th : tcp_hdr) (o : topts)
 Theorem extract4 h th payload o syn_mss :
   wf_ip4 h (enc_tcp th payload) -> h4_proto h = 6 -> h4_off h = 0 -> wf_tcp th ->
   parse_options (th_opts th) (type_of_hdr th =? fSYN) = Ok o ->
-  exists k, parse_packet 4 (enc_ip4 h (enc_tcp th payload)) = Framed (Ok k) /\
+  exists k, parse_datagram 4 (enc_ip4 h (enc_tcp th payload)) = Framed (Ok k) /\
     i_frag (k_ip k) = h4_mf h /\ t_type (k_tcp k) = type_of_hdr th /\
     t_sport (k_tcp k) = th_sport th /\ t_dport (k_tcp k) = th_dport th /\ t_seq (k_tcp k) = th_seq th /\
     SigFields (sig_of k syn_mss) 4 (len (h4_opts h)) (h4_ttl h) th o (20 + len (h4_opts h) + (20 + len (th_opts th))) payload syn_mss /\
@@ -22,7 +22,7 @@ Proof.
   destruct (ip4_enc h (enc_tcp th payload) W4) as (q4 & E4 & Q4).
   destruct (tcp_enc th payload o Wt Po) as (qt & Et & Qt).
   eexists. split.
-  { unfold parse_packet. cbn [Z.eqb Pos.eqb]. rewrite E4. cbn [i_proto i_fragoff i_payload].
+  { unfold parse_datagram. cbn [Z.eqb Pos.eqb]. rewrite E4. cbn [i_proto i_fragoff i_payload].
     rewrite Hp, Ho. cbn [Z.eqb Pos.eqb negb orb]. rewrite Et. reflexivity. }
   cbn [k_ip k_tcp i_frag t_type t_sport t_dport t_seq].
   rewrite ?orb_false_r.
@@ -34,7 +34,7 @@ Qed.
 Theorem extract6 h th payload o syn_mss :
   wf_ip6 h (enc_tcp th payload) -> h6_nh h = 6 -> wf_tcp th ->
   parse_options (th_opts th) (type_of_hdr th =? fSYN) = Ok o ->
-  exists k, parse_packet 6 (enc_ip6 h (enc_tcp th payload)) = Framed (Ok k) /\
+  exists k, parse_datagram 6 (enc_ip6 h (enc_tcp th payload)) = Framed (Ok k) /\
     i_frag (k_ip k) = false /\ t_type (k_tcp k) = type_of_hdr th /\
     t_sport (k_tcp k) = th_sport th /\ t_dport (k_tcp k) = th_dport th /\ t_seq (k_tcp k) = th_seq th /\
     SigFields (sig_of k syn_mss) 6 0 (h6_hlim h) th o (40 + (20 + len (th_opts th))) payload syn_mss /\
@@ -44,7 +44,7 @@ Proof.
   destruct (ip6_enc h (enc_tcp th payload) W6) as (q6 & E6 & Q6).
   destruct (tcp_enc th payload o Wt Po) as (qt & Et & Qt).
   eexists. split.
-  { unfold parse_packet. cbn [Z.eqb Pos.eqb]. rewrite E6. cbn [i_proto i_fragoff i_payload].
+  { unfold parse_datagram. cbn [Z.eqb Pos.eqb]. rewrite E6. cbn [i_proto i_fragoff i_payload].
     rewrite Hp. cbn [Z.eqb Pos.eqb negb orb]. rewrite Et. reflexivity. }
   cbn [k_ip k_tcp i_frag t_type t_sport t_dport t_seq].
   repeat split; try reflexivity.
